@@ -35,6 +35,8 @@ func checkC01(w *World, r *Report) {
 	c01WsWrite(w, r)
 	c01WriteCounts(w, r)
 	c01WsReadLimit(w, r)
+	r.Rule("R01.11", "a logical connection is piped to the channel whose exact name was negotiated (the stream's bytes reach the target the client asked for)", 1)
+	c03OpenGuard(w, r, "R01.11")
 	r.Rule("R01.10", "a deadline armed on a connection is disarmed in both directions before the connection lives on as a session", 1)
 	ruleDeadlinePairing(w, r, "R01.10")
 	ruleLocksetConsistent(w, r, "R01.8", func(p string) bool { return connPkgs(p) || p == modPath+"/internal/streams/dns/util" }, "a reader overlapping a writer of the same buffer sees it half-updated: bytes delivered twice, lost or torn")
